@@ -618,13 +618,14 @@ def fmt_path(path: list[N] | None) -> str:
 # ---------------------------------------------------------------------------
 
 
-def eval_test(e: ast.AST, val: dict[str, bool]) -> bool | None:
-    """Three-valued evaluation of a test under a valuation of atomic tests."""
+def eval_test(e: ast.AST, val: dict[str, bool], defs: dict[str, ast.AST] | None = None, _depth: int = 0) -> bool | None:
+    """Three-valued evaluation of a test under a valuation of atomic tests.
+    ``defs`` maps single-assignment locals to their defining expression (looked through)."""
     if isinstance(e, ast.UnaryOp) and isinstance(e.op, ast.Not):
-        r = eval_test(e.operand, val)
+        r = eval_test(e.operand, val, defs, _depth)
         return None if r is None else (not r)
     if isinstance(e, ast.BoolOp):
-        rs = [eval_test(v, val) for v in e.values]
+        rs = [eval_test(v, val, defs, _depth) for v in e.values]
         if isinstance(e.op, ast.And):
             if any(r is False for r in rs):
                 return False
@@ -638,7 +639,11 @@ def eval_test(e: ast.AST, val: dict[str, bool]) -> bool | None:
     if isinstance(e, ast.Constant):
         return bool(e.value)
     k = ast.unparse(e)
-    return val.get(k)
+    if k in val:
+        return val[k]
+    if defs and isinstance(e, ast.Name) and e.id in defs and _depth < 4:
+        return eval_test(defs[e.id], val, defs, _depth + 1)
+    return None
 
 
 def test_atoms(e: ast.AST) -> list[ast.AST]:
@@ -704,10 +709,24 @@ def valuations(atoms: list[str], cap: int = 6) -> list[dict[str, bool]]:
     return out
 
 
-def specialize(val: dict[str, bool]) -> EdgeFilter:
+def single_defs(cfg: "CFG") -> dict[str, ast.AST]:
+    """Locals of the function that are bound exactly once by a plain assignment."""
+    out: dict[str, ast.AST] = {}
+    for name, ds in cfg.db.local_defs(cfg.func).items():
+        if len(ds) == 1 and isinstance(ds[0], (ast.Assign, ast.AnnAssign)) and ds[0].value is not None and name not in cfg.func.param_names:
+            d = ds[0]
+            tg = d.targets[0] if isinstance(d, ast.Assign) else d.target
+            if isinstance(tg, ast.Name):
+                out[name] = d.value
+    return out
+
+
+def specialize(val: dict[str, bool], cfg: "CFG | None" = None) -> EdgeFilter:
+    defs = single_defs(cfg) if cfg is not None else None
+
     def ef(a: N, b: N, label: str, info: Any) -> bool:
         if a.kind == "test" and label in ("T", "F") and a.ast is not None:
-            r = eval_test(a.ast, val)
+            r = eval_test(a.ast, val, defs)
             if r is True and label == "F":
                 return False
             if r is False and label == "T":
